@@ -70,6 +70,30 @@ pub fn values_and_accessors<const NI: usize, const NB: usize>(iv: [i64; NI], bv:
     std::mem::forget(st);
 }
 
+/// values loaded in two batches: the second batch is counted together with what is already there
+pub fn two_batches(a: [i64; 2], b: [i64; 2], max: usize) {
+    let r = PushState::builder().with_max_stack_size(max).with_no_program().with_int_values(a.to_vec());
+    let bld = match r {
+        Ok(x) => x,
+        Err(_) => {
+            assert!(max < 2, "C19 first batch rejected although it fits");
+            return;
+        }
+    };
+    match bld.with_int_values(b.to_vec()) {
+        Ok(x) => {
+            assert!(max >= 4, "C19 a second batch of values was accepted although the stack then exceeds its maximum");
+            let mut st = x.with_instruction_step_limit(1).build();
+            assert!(st.stack::<i64>().size() == 4 && st.stack::<i64>().size() <= st.stack::<i64>().max_stack_size(), "C19 two batches: size");
+            // the later batch sits on top, its first value topmost
+            assert!(st.stack_mut::<i64>().pop().unwrap() == b[0] && st.stack_mut::<i64>().pop().unwrap() == b[1]
+                && st.stack_mut::<i64>().pop().unwrap() == a[0] && st.stack_mut::<i64>().pop().unwrap() == a[1], "C19 two batches: order");
+            std::mem::forget(st);
+        }
+        Err(e) => assert!(max < 4 && matches!(e, StackError::Overflow { .. }), "C19 second batch rejected although both fit / wrong error"),
+    }
+}
+
 /// maximum last set wins, globally or individually, in both orders the type-state permits
 pub fn max_sizes(g: usize, s: usize, order: bool) {
     let st = if order {
@@ -145,6 +169,17 @@ mod proofs {
         c19_values_0_0_fit = <0, 0>, 1; c19_values_1_2_fit = <1, 2>, 2; c19_values_3_1_fit = <3, 1>, usize::MAX; c19_values_2_3_fit = <2, 3>, 3;
         c19_values_int_overflow = <3, 1>, 2; c19_values_bool_overflow = <1, 2>, 1; c19_values_float_overflow = <0, 0>, 0;
     }
+
+    macro_rules! batches { ($($name:ident = $max:expr;)*) => {$(
+        #[kani::proof]
+        #[kani::unwind(6)]
+        #[kani::stub(std::hash::RandomState::new, crate::c19_builder::fixed_random_state)]
+        fn $name() {
+            two_batches(kani::any(), kani::any(), $max);
+            crate::witness!(true, "WITNESS reached");
+        }
+    )*}; }
+    batches! { c19_two_batches_fit = 4; c19_two_batches_overflow = 3; }
 
     #[kani::proof]
     #[kani::unwind(6)]
